@@ -1,17 +1,25 @@
 import UralModel.Lemmas.Canonicalize
 import UralModel.Lemmas.QuoteIdem
+import UralModel.Lemmas.Normpath
+import UralModel.Lemmas.CanonModes
 /-!
 # C02 — canonicalize_url yields one canonical spelling and is idempotent
 
 Proved here, for all strings: the spelling changes that the *cleaning pass* and the
-*component rules* of the model absorb.  Idempotence of the whole function and the
-escape-equivalence clause (`%41` vs `A`, raw space vs `%20`, dot-segment insertion, the mode
-round trips) are NOT yet theorems: they are decided on every run by the oracle
+*component rules* of the model absorb — control characters, surrounding whitespace, hex case,
+default port, host rule; and, component by component (second half of this file): idempotence
+in both modes and the four mode round trips (path, userinfo items, query, fragment; the mode
+round trips that start from quoted mode under the explicit exclusion of KF-C02-1's class,
+`cleanStr` / `pathClean`), dot-segment insertion (`canonPath` factors through the resolved
+view) and escape-equivalence (`%41` vs `A`, raw space vs `%20`, `é` vs `%C3%A9`).  What is NOT
+a theorem: that CPython's `urlsplit` gives the printed components back (the whole-function
+statement is the composition of these component theorems with that re-parse), and punycode
+vs Unicode spelling of a label: decided on every run by the oracle
 (`canonicalize(T(u)) == canonicalize(u)` over every transformation of the statement) and by
 the model-vs-implementation comparison of both spellings.
 -/
 namespace Ural.Props.C02
-open Ural Ural.Py Ural.UrlParts Ural.Quote Ural.Canonicalize
+open Ural Ural.Py Ural.UrlParts Ural.Quote Ural.Canonicalize Ural.Normpath
 
 /-- embedded control characters never change the result: the cleaning pass depends on the
 input only through its control-stripped form -/
@@ -86,11 +94,12 @@ theorem host_idempotent (puny : Str → Str) (hp : PunyLaws puny) (h : Str) :
 
 theorem safelyUnquote_idem (U : List UInt8) (hU : (0x25 : UInt8) ∈ U) (hA : AsciiSet U) (s : Str) :
     safelyUnquote U (safelyUnquote U s) = safelyUnquote U s := by
-  have hout := outTok_unquoteToks U (tokens s) (wf_tokens s)
-  have h : tokens (safelyUnquote U s) = unquoteToks U (tokens s) :=
-    tokens_render_of_canon _ (fun t ht => canon_of_outTok hU (wf_tokens s) (hout t ht))
+  have hw := wf_escapeRaw (wf_tokens s)
+  have hout := outTok_unquoteToks U (escapeRaw (tokens s)) hw
+  have h : tokens (safelyUnquote U s) = unquoteToks U (escapeRaw (tokens s)) :=
+    tokens_render_of_canon _ (fun t ht => canon_of_outTok hU hw (hout t ht))
   unfold safelyUnquote at h ⊢
-  rw [h, unquoteToks_idem U hU hA]
+  rw [h, escapeRaw_unquoteToks, unquoteToks_idem U hU hA]
 
 /-- userinfo items and the fragment: canonicalizing the canonical component changes nothing
 (unquoted mode) -/
@@ -126,6 +135,175 @@ theorem canonQuery_idempotent (q : Str) :
   obtain ⟨k, v⟩ := kv
   simp only [Function.comp, unquoteQueryItem, safelyUnquote_idem _ hU hA]
   cases v <;> simp [safelyUnquote_idem _ hU hA]
+
+
+/-! ## the path: idempotence, the two modes, dot segments
+
+`Lemmas/Normpath.lean`.  `absPath p`: `p` is empty or starts with `/` (every path the parser
+returns for a URL with an authority); `pathClean p`: no raw `?`, `#`, control character (every
+path the parser returns after the cleaning pass).  Both are checked on every parsed case of
+the correspondence stream (`path_hyp` line). -/
+
+/-- the `path` field of the result is `pathOut` of the input path -/
+theorem comps_path (puny : Str → Str) (quoted sf : Bool) (p : Parsed) :
+    (canonComps puny quoted sf p).path =
+      pathOut quoted p.path (!p.query.isEmpty || truthy (if sf then none else some p.fragment)) := by
+  simp only [canonComps, pathOut]
+
+/-- **path idempotence**: the path rule applied to its own result (whatever the "query or
+fragment present" flags of the two passes) gives that result -/
+theorem canonPath_idempotent (p : Str) (m m' : Bool) (h : absPath p = true) :
+    canonPath (canonPath p m) m' = canonPath p m' :=
+  canonPath_idem p m m' h
+
+/-- the second `safely_unquote_path` of unquoted mode changes nothing -/
+theorem path_second_unquote_noop (p : Str) (m : Bool) (h : absPath p = true) :
+    unquotePath (canonPath p m) = canonPath p m :=
+  unquotePath_canonPath p m h
+
+/-- the full statement of the mode round trips on the path, for every absolute path -/
+def FullPathModes : Prop :=
+  ∀ (q1 q2 : Bool) (p : Str) (m m' : Bool), absPath p = true →
+    pathOut q2 (pathOut q1 p m) m' = pathOut q2 p m'
+
+/-- **idempotence in both modes and the four mode round trips, on the path**: what the second
+pass (mode `q2`) computes from the path printed by the first pass (mode `q1`) is what mode `q2`
+computes from the original path.  No hypothesis beyond `absPath` when the first pass is the
+unquoted one; `pathClean` when it is the quoted one. -/
+theorem path_modes_partial (q1 q2 : Bool) (p : Str) (m m' : Bool) (h : absPath p = true)
+    (hc : q1 = true → pathClean p = true) :
+    pathOut q2 (pathOut q1 p m) m' = pathOut q2 p m' :=
+  pathOut_modes q1 q2 p m m' h hc
+
+/-- outside `pathClean` the round trip through quoted mode fails in the model (a raw `?` —
+which the parser never leaves in a path — is escaped by `quote` and then kept escaped) -/
+example : ¬ FullPathModes := by
+  intro h
+  have := h true false "/?".toList false false (by decide)
+  revert this
+  decide +kernel
+
+/-- **`canonPath` factors through the resolved view** (`pathKey`: the unescaped segments after
+`.` / `..` / empty-segment resolution + the trailing-slash flag) -/
+theorem canonPath_factors (p : Str) (m : Bool) (h : absPath p = true) :
+    canonPath p m = renderSegs (pathKey p) m :=
+  canonPath_render p m h
+
+/-- **dot-segment insertion is irrelevant**: two absolute paths with the same resolved view
+have the same canonical path — however their `.`, `..`, empty segments are placed and
+however the dots are spelled (`%2E`) -/
+theorem dot_segment_insertion_irrelevant (p p' : Str) (m : Bool) (h : absPath p = true)
+    (h' : absPath p' = true) (hk : pathKey p = pathKey p') : canonPath p m = canonPath p' m :=
+  canonPath_congr p p' m h h' hk
+
+/-- inserting a `.` segment anywhere -/
+theorem insert_dot_segment (a b : Str) (m : Bool) (h : absPath a = true) :
+    canonPath (a ++ '/' :: (['.'] ++ '/' :: b)) m = canonPath (a ++ '/' :: b) m :=
+  canonPath_insert a _ b m h (by
+    have : unquotePath ['.'] = ['.'] := by decide
+    rw [this]; exact insert_dot_ok)
+
+/-- … spelled `%2E` -/
+theorem insert_escaped_dot_segment (a b : Str) (m : Bool) (h : absPath a = true) :
+    canonPath (a ++ '/' :: ("%2E".toList ++ '/' :: b)) m = canonPath (a ++ '/' :: b) m :=
+  canonPath_insert a _ b m h (by
+    have : unquotePath "%2E".toList = ['.'] := by decide
+    rw [this]; exact insert_dot_ok)
+
+/-- inserting an empty segment (a doubled slash) anywhere -/
+theorem insert_empty_segment (a b : Str) (m : Bool) (h : absPath a = true) :
+    canonPath (a ++ '/' :: ([] ++ '/' :: b)) m = canonPath (a ++ '/' :: b) m :=
+  canonPath_insert a _ b m h (by rw [unquotePath_nil]; exact insert_empty_ok)
+
+/-- inserting `x/..` anywhere, for a segment `x` that is not itself a dot segment -/
+theorem insert_updir_segment (a x b : Str) (m : Bool) (h : absPath a = true)
+    (hx : Normal (unquotePath x)) :
+    canonPath (a ++ '/' :: ((x ++ '/' :: "..".toList) ++ '/' :: b)) m = canonPath (a ++ '/' :: b) m :=
+  canonPath_insert a _ b m h (by
+    have : unquotePath "..".toList = ['.', '.'] := by decide
+    rw [unquotePath_append_slash, this]; exact insert_updir_ok _ hx)
+
+/-! ## escape-equivalence -/
+
+/-- **two spellings with the same normal form are unquoted to the same string**, for each of
+the four safe unquoters: `normItems U s` is the list of what each token of `s` is for the
+unquoter (kept escape, decoded ASCII character, pending byte), with raw non-ASCII characters
+spelled as their UTF-8 bytes.  `%41` ≡ `A`, raw space ≡ `%20`, `é` ≡ `%C3%A9` ≡ `%c3%a9`. -/
+theorem unquote_respects_equiv (U : List UInt8) (a b : Str) (h : normItems U a = normItems U b) :
+    safelyUnquote U a = safelyUnquote U b :=
+  Quote.unquote_respects_equiv U a b h
+
+/-- … hence the same canonical path -/
+theorem canonPath_respects_equiv (a b : Str) (m : Bool)
+    (h : normItems Gen.Quote.unsafeForPath a = normItems Gen.Quote.unsafeForPath b) :
+    canonPath a m = canonPath b m := by
+  have := Quote.unquote_respects_equiv _ a b h
+  rw [canonPath_eq, canonPath_eq]
+  unfold unquotePath
+  rw [this]
+
+/-- non-vacuity: escaped unreserved characters, a raw space, a raw non-ASCII character against
+its lower-case escaped bytes; a reserved escape (`%2F`) is NOT equivalent to the raw character -/
+example :
+    normItems Gen.Quote.unsafeForPath "/%41%7Eb c/é%2F".toList =
+      normItems Gen.Quote.unsafeForPath "/A~%62%20c/%c3%a9%2F".toList ∧
+    normItems Gen.Quote.unsafeForPath "/a%2Fb".toList ≠ normItems Gen.Quote.unsafeForPath "/a/b".toList := by
+  decide +kernel
+
+/-! ## userinfo items, fragment, query: both modes -/
+
+def FullOptModes (U : List UInt8) : Prop :=
+  ∀ (q1 q2 : Bool) (o : Option Str),
+    canonOpt q2 (safelyUnquote U) (canonOpt q1 (safelyUnquote U) o) = canonOpt q2 (safelyUnquote U) o
+
+/-- **idempotence in both modes and the four mode round trips of a userinfo item or the
+fragment**; when the first pass is the quoted one, every raw character of the component must
+survive a quote/unquote cycle (`cleanStr`: this excludes exactly the class of KF-C02-1) -/
+theorem opt_modes_partial (U : List UInt8) (hU : (0x25 : UInt8) ∈ U) (hA : AsciiSet U) (q1 q2 : Bool)
+    (o : Option Str) (hcl : q1 = true → ∀ u, o = some u → cleanStr U u = true) :
+    canonOpt q2 (safelyUnquote U) (canonOpt q1 (safelyUnquote U) o) = canonOpt q2 (safelyUnquote U) o :=
+  canonOpt_modes U hU hA q1 q2 o hcl
+
+/-- KF-C02-1 in the model: a password `:` does not come back from quoted mode -/
+example : ¬ FullOptModes Gen.Quote.unsafeForAuthItem := by
+  intro h
+  have := h true false (some ":".toList)
+  revert this
+  decide +kernel
+
+def FullQueryModes : Prop :=
+  ∀ (q1 q2 : Bool) (x : Str), canonQuery q2 (canonQuery q1 x) = canonQuery q2 x
+
+/-- **idempotence in both modes and the four mode round trips of the query** (`QslClean`:
+every key and value is `cleanStr`, needed when the first pass is the quoted one) -/
+theorem query_modes_partial (q1 q2 : Bool) (x : Str) (hcl : q1 = true → QslClean x) :
+    canonQuery q2 (canonQuery q1 x) = canonQuery q2 x :=
+  canonQuery_modes q1 q2 x hcl
+
+/-- KF-C02-1 in the model: a query value `=` does not come back from quoted mode -/
+example : ¬ FullQueryModes := by
+  intro h
+  have := h true false "k==".toList
+  revert this
+  decide +kernel
+
+/-- the four regenerated unsafe sets satisfy what the mode theorems need -/
+theorem tables_modes :
+    (0x25 : UInt8) ∈ Gen.Quote.unsafeForAuthItem ∧ AsciiSet Gen.Quote.unsafeForAuthItem ∧
+    (0x25 : UInt8) ∈ Gen.Quote.unsafeForFragment ∧ AsciiSet Gen.Quote.unsafeForFragment ∧
+    (0x25 : UInt8) ∈ Gen.Quote.unsafeForQueryItem ∧ AsciiSet Gen.Quote.unsafeForQueryItem ∧
+    (0x25 : UInt8) ∈ Gen.Quote.unsafeForPath ∧ AsciiSet Gen.Quote.unsafeForPath := by
+  unfold AsciiSet; decide
+
+/-- non-vacuity of the mode theorems: clean components with escapes, a space, a non-ASCII
+character and an undecodable byte; a path with dot segments -/
+example :
+    cleanStr Gen.Quote.unsafeForAuthItem "p%41 é%E9~".toList = true ∧
+    pathClean "/a/%2E%2E/b c/é%E9/".toList = true ∧ absPath "/a/%2E%2E/b c/é%E9/".toList = true ∧
+    pathOut true "/a/%2E%2E/b c/é%E9/".toList false = "/b%20c/%C3%A9%E9/".toList ∧
+    pathOut false "/b%20c/%C3%A9%E9/".toList false = "/b%20c/é%E9/".toList ∧
+    pathOut false "/a/%2E%2E/b c/é%E9/".toList false = "/b%20c/é%E9/".toList := by
+  decide +kernel
 
 /-- non-vacuity -/
 example : stripControl "a\x00b\x7fc".toList = "abc".toList ∧
